@@ -146,8 +146,8 @@ pub fn alphabet() -> Vec<Op> {
 fn symbols() -> Vec<(String, Box<QRCode>)> {
     let mut v = vec![];
     for (name, input, o) in [
-        ("v1", &b"HELLO"[..], Opts { mode: None, ecl: Some(0), version: Some(1), mask: None }),
-        ("v2", &b"https://example.com/"[..], Opts { mode: None, ecl: Some(1), version: Some(2), mask: None }),
+        ("v1", &b"HELLO"[..], Opts { mode: None, ecl: Some(0), version: Some(1), mask: None, order: 0 }),
+        ("v2", &b"https://example.com/"[..], Opts { mode: None, ecl: Some(1), version: Some(2), mask: None, order: 0 }),
     ] {
         if let Outcome::Ok(q) = subject::build(input, &o) {
             v.push((name.to_string(), q));
@@ -220,7 +220,7 @@ pub fn replay(case: &Value) -> Result<Vec<(String, String)>, String> {
 
 fn sweep_symbol(v: usize) -> Option<Box<QRCode>> {
     let input = content(Family::Ctr, 2, crate::refmodel::cap(v, 1, 2));
-    match subject::build(&input, &Opts { mode: Some(2), ecl: Some(1), version: Some(v as u8), mask: None }) {
+    match subject::build(&input, &Opts { mode: Some(2), ecl: Some(1), version: Some(v as u8), mask: None, order: 0 }) {
         Outcome::Ok(q) => Some(q),
         _ => None,
     }
